@@ -90,7 +90,7 @@ def run(ctx):
                       {"kind": "c06", "spec": spec, "stream": s.decode("latin-1"), "chunks": [c.decode("latin-1") for c in chunks],
                        "progs": progs, "obs_segmented": obs, "obs_whole": whole_obs})
     # cap the model run
-    limit = 2500 if quick else 40000
+    limit = 2500 if quick else 15000
     if len(cases) > limit:
         ctx.rng.shuffle(cases)
         cases = cases[:limit]
